@@ -47,6 +47,17 @@ def run_case(case):
     if case["internal"]:
         allm = [f"{p.package}.{s.name}.{m.name}" for p, s, m in refs.target_methods(req0)]
         kept = set(rng.sample(allm, max(1, len(allm) // 3)))
+        # an RPC name that two services share: public in one, internal in the other
+        by_rpc = {}
+        for fq in allm:
+            by_rpc.setdefault(fq.rsplit(".", 1)[1], []).append(fq)
+        for twins in by_rpc.values():
+            if len(twins) > 1:
+                pub = rng.randrange(len(twins))
+                for i, fq in enumerate(twins):
+                    (kept.add if i == pub else kept.discard)(fq)
+        if not kept:
+            kept.add(allm[0])
         api.aux["service-yaml"] = ("svc.yaml", apigen.service_yaml(api, publishing=apigen.selective_publishing(api.info["pkg"], sorted(kept), internal=True)))
     req, g, lib = pipeline.build_and_generate(api, scratch)
     if not g.ok:
